@@ -246,6 +246,10 @@ func FindInsertionPoints(
 			// if the root value is a list
 			if rootList, ok := rootValue.([]interface{}); ok {
 				for i := range oldBranch {
+					// a service can answer with a list where the schema has an object
+					if i >= len(rootList) {
+						return nil, errors.New("root list has less items than expected")
+					}
 					entry, ok := rootList[i].(map[string]interface{})
 					if !ok {
 						return nil, errors.New("item in root list isn't a map")
